@@ -252,6 +252,9 @@ func genHostile(t *rapid.T, n *consim.Net, nd *consim.Node, signer int, pstate *
 	if signer >= 0 && string(rs.Validators.GetProposer().Address) == string(n.Vals[signer].Addr) && rs.Proposal == nil {
 		kinds = append(kinds, "p-header", "p-header", "p-header", "p-block", "p-block", "p-block", "p-block", "p-variant", "p-variant", "p-variant")
 	}
+	if signer >= 0 {
+		kinds = append(kinds, "conflict-replay", "conflict-replay", "conflict-replay")
+	}
 	kind := rapid.SampledFrom(kinds).Draw(t, "mkind")
 	if prefer != "" && rapid.Bool().Draw(t, "preferred") {
 		kind = prefer
@@ -528,6 +531,61 @@ func genHostile(t *rapid.T, n *consim.Net, nd *consim.Node, signer int, pstate *
 		}
 		h.legit = false
 		h.desc = fmt.Sprintf("near-limit-part wire=%d", len(h.bytes))
+	case "conflict-replay":
+		// An equivocating validator and ordinary gossip: its vote for a block X comes first, then the genuine votes of the other
+		// validators for the block Y they really voted for (the peer relays what it has seen on the network; together with the
+		// node's own vote that is +2/3), then its second, conflicting vote for Y - and the same message once more, as a second
+		// neighbour would deliver it.
+		h.ch = consensus.VoteChannel
+		type slot struct {
+			r  int
+			ty byte
+			id string
+		}
+		groups := map[slot][]*types.Vote{}
+		var order []slot
+		for _, e := range n.Pool {
+			vm, ok := e.Msg.(*consensus.VoteMessage)
+			if !ok || e.Byz || e.From == signer || vm.Vote == nil || vm.Vote.Height != rs.Height || len(vm.Vote.BlockID.Hash) == 0 || vm.Vote.BlockID.IsZero() {
+				continue
+			}
+			k := slot{vm.Vote.Round, vm.Vote.Type, vm.Vote.BlockID.String()}
+			if groups[k] == nil {
+				order = append(order, k)
+			}
+			groups[k] = append(groups[k], vm.Vote)
+		}
+		if len(order) == 0 {
+			return nil
+		}
+		k := order[rapid.IntRange(0, len(order)-1).Draw(t, "cr_slot")]
+		idY := groups[k][0].BlockID
+		vi, _ := n.ValSet.GetByAddress(n.Vals[signer].Addr)
+		mk := func(id types.BlockID) *types.Vote {
+			v := &types.Vote{ValidatorAddress: n.Vals[signer].Addr, ValidatorIndex: vi, ValidatorSize: n.ValSet.Size(), Height: rs.Height, Round: k.r,
+				Timestamp: time.Unix(1569409200, 0).UTC(), Type: k.ty, BlockID: id}
+			v.Signature = sign(v.SignBytes(consim.ChainID))
+			return v
+		}
+		idX := types.BlockID{Hash: common.BytesToHash(crypto.Keccak256([]byte("another block"))), PartsHeader: types.PartSetHeader{Total: 1, Hash: crypto.Keccak256([]byte("x"))}}
+		if rapid.IntRange(0, 3).Draw(t, "cr_nilfirst") == 0 {
+			idX = types.BlockID{}
+		}
+		h.bytes = enc(&consensus.VoteMessage{Vote: mk(idX)})
+		seen := map[int]bool{}
+		for _, v := range groups[k] {
+			if !seen[v.ValidatorIndex] {
+				seen[v.ValidatorIndex] = true
+				h.more = append(h.more, wire{consensus.VoteChannel, enc(&consensus.VoteMessage{Vote: v})})
+			}
+		}
+		second := enc(&consensus.VoteMessage{Vote: mk(idY)})
+		for i := rapid.IntRange(1, 3).Draw(t, "cr_repeats"); i >= 0; i-- {
+			h.more = append(h.more, wire{consensus.VoteChannel, second})
+		}
+		h.legit = true
+		h.vote = mk(idX)
+		h.desc = fmt.Sprintf("conflict-replay h=%d r=%d type=%d: own vote for %s, %d relayed votes for %s, then own vote for it, repeated", rs.Height, k.r, k.ty, idX.String(), len(seen), idY.String())
 	case "forged-vote":
 		// every field is what a correct validator OTHER than the sender would put there; only the signature is not that
 		// validator's (absent, made with the sender's key, or that validator's genuine signature over a different vote)
